@@ -151,12 +151,14 @@ pub fn scan_stream(ts: TokenStream, module: &str, scan: &mut Scan, per_module: &
 }
 
 fn documented_source(l: &Layout) -> String {
-    let ro = RenderOpts { docs: true, vis_pub: true, enum_derives: "#[derive(Debug, PartialEq, Eq)]".into() };
+    // every other declaration carries its field doc comments *after* the bit/bits attribute
+    let after = l.fields.len() % 2 == 0;
+    let ro = RenderOpts { docs: true, vis_pub: true, enum_derives: "#[derive(Debug, PartialEq, Eq)]".into(), docs_after_attr: after };
     render_layout(l, &ro)
 }
 
 pub fn corpus_c18(tier: Tier, seed: u64) -> Vec<Layout> {
-    let n = tier.pick(300usize, 2400usize);
+    let n = tier.pick(300usize, 6000usize);
     let mut v = Vec::new();
     let mut p = Profile::general();
     p.kinds = [3, 5, 3, 3, 2, 2, 2];
@@ -190,7 +192,7 @@ pub fn corpus_c18(tier: Tier, seed: u64) -> Vec<Layout> {
 pub fn run(rc: &RunCtx) -> Outcome {
     let layouts = corpus_c18(rc.tier, rc.seed);
     let enums: Vec<EnumDecl> = crate::corpus::enum_corpus(Tier::Quick, rc.seed).into_iter().map(|(_, e)| e).step_by(rc.tier.pick(6, 1)).collect();
-    let ro_doc = RenderOpts { docs: true, vis_pub: true, enum_derives: "#[derive(Debug, PartialEq, Eq)]".into() };
+    let ro_doc = RenderOpts { docs: true, vis_pub: true, enum_derives: "#[derive(Debug, PartialEq, Eq)]".into(), docs_after_attr: false };
     let mut files: Vec<(String, String)> = Vec::new();
     let mut sources: BTreeMap<String, String> = BTreeMap::new();
     for (i, l) in layouts.iter().enumerate() {
